@@ -434,6 +434,7 @@ class Driver:
         sys.modules["c14_rt"] = rt
         self.log = log
         self.keep = []
+        self.hangs = 0
 
     def clock(self):
         return int(self.wpilib.RobotController.getFPGATime())
@@ -503,12 +504,15 @@ class Driver:
                 err.append(e)
 
         t0 = self.clock()
+        if self.hangs > 8:
+            return t0, [], False, "run() not called any more: it hung %d times in this worker" % self.hangs
+        patience = 5 if self.hangs == 0 else 0.5
         th = threading.Thread(target=body, daemon=True)
         th.start()
         problem = None
         ended = False
         for k in range(nticks):
-            if not sem.acquire(timeout=5):
+            if not sem.acquire(timeout=patience):
                 problem = "run() did not reach iteration %d" % k
                 break
             if k == nticks - 1:
@@ -524,8 +528,9 @@ class Driver:
                 self.sim.stepTimingAsync(period_us * 1e-6)
             else:
                 self.sim.stepTiming(period_us * 1e-6)
-        th.join(5)
+        th.join(patience)
         if th.is_alive():
+            self.hangs += 1
             problem = problem or "run() did not return"
             s.robot_exit = True
             DS.setEnabled(False)
